@@ -191,11 +191,51 @@ func c08Case(w *core.W, p *project, family string) bool {
 	}
 	verr0 := o.Validate(sch, inst, 0)
 	c08Record(w, oas, comps, ex, verr0 == nil)
+	c08Last = &c08Art{p: p, o: o, sch: sch, inst: inst, ex: ex, oas: oas}
 	if verr := verr0; verr != nil {
 		fail("example-validates", fmt.Sprintf("example %s is not an instance of %s: %v", trunc(string(ex), 80), trunc(string(oas), 200), verr), map[string]string{"keyword": lastKeyword(verr.Error())})
 	}
 	w.Class("validated")
 	return true
+}
+
+// c08Art: what the last validated case produced (kept for the variation clause).
+type c08Art struct {
+	p    *project
+	o    *ref.OAS
+	sch  any
+	inst any
+	ex   []byte
+	oas  []byte
+}
+
+var c08Last *c08Art
+
+// c08Variations: the projects of one group differ in one scalar only and each of them is
+// accepted, so the scalar of one is a variation the rules of every other still accept: its
+// example must be an instance of the other's Schema Object too.
+func c08Variations(w *core.W, arts []*c08Art, lits []string, explicit bool, pos string) {
+	for i, a := range arts {
+		for j, b := range arts {
+			if i == j || string(a.ex) == string(b.ex) {
+				continue
+			}
+			// without an explicit type the kind of the example is the type: a value of
+			// another kind is not a variation the rules accept, it is another schema
+			if !explicit && litKind(lits[i]) != litKind(lits[j]) {
+				continue
+			}
+			w.S.Evaluations++
+			w.S.Transitions++
+			if verr := a.o.Validate(a.sch, b.inst, 0); verr != nil {
+				wit, _ := stdjson.Marshal(a.p)
+				w.Violate(core.Violation{Clause: "variation-validates", Entry: "typed-values", Input: a.p.describe(), Witness: wit,
+					Detail: fmt.Sprintf("the schema also accepts %s (Check() passes with that value in place of the example), which is not an instance of %s: %v", trunc(string(b.ex), 80), trunc(string(a.oas), 200), verr),
+					Sig:    map[string]string{"keyword": lastKeyword(verr.Error()), "pos": pos, "features": c08Features(a.p)}})
+				return
+			}
+		}
+	}
 }
 
 // distinct (schema, components, instance) triples, re-judged by python jsonschema in
@@ -330,16 +370,47 @@ func c08Run(w *core.W) {
 		}
 	})
 	// (2) C01: typed values in every position (value variations the rules accept)
+	// grouped by rule set: the members of a group differ in the one scalar only, which
+	// gives the variations of each other's example
+	groups := map[string][]tv{}
+	var order []string
 	c01TypedValues(w.Thorough(), func(t tv) {
-		if !mine() {
-			return
+		key := strings.Join(t.Rules, ", ") + "|" + t.Witness
+		if _, ok := groups[key]; !ok {
+			order = append(order, key)
 		}
-		for _, pos := range c01Positions {
-			if p, _ := place(t, pos); p != nil {
-				c08Case(w, p, "typed-values")
-			}
-		}
+		groups[key] = append(groups[key], t)
 	})
+	for _, key := range order {
+		if !mine() {
+			continue
+		}
+		g := groups[key]
+		c, hasConst := ruleValue(g[0].Rules, "const")
+		fixed := hasConst && c == "true" // the example itself is the rule: no other value is accepted
+		for _, pos := range c01Positions {
+			var arts []*c08Art
+			var lits []string
+			for _, t := range g {
+				if p, _ := place(t, pos); p != nil {
+					c08Last = nil
+					c08Case(w, p, "typed-values")
+					if c08Last != nil && !fixed {
+						arts = append(arts, c08Last)
+						lits = append(lits, t.Lit)
+					}
+				}
+			}
+			explicit := hasRule(g[0].Rules, "type") || hasRule(g[0].Rules, "or") || hasRule(g[0].Rules, "enum")
+			switch pos {
+			case "type-rule", "or-types", "or-diamond":
+				explicit = true
+			case "or-rulesets", "or-rulesets+other-inline-or":
+				explicit = false // the inline rule-set is typed after the literal
+			}
+			c08Variations(w, arts, lits, explicit, pos)
+		}
+	}
 	// (3) plain JSON incl. keys and strings that need escaping
 	c03Values(w, func(v gen.JV) {
 		if mine() {
@@ -362,6 +433,23 @@ func c08Run(w *core.W) {
 			"\t\"\": 1,\n\t@s: \"v\"", "\t@s: 1,\n\t\"\": true,\n\t\"@s\": 2", "\t\"\": {\n\t\t@s: 1\n\t}"} {
 			if mine() {
 				c08Case(w, &project{Root: "{" + ap + "\n" + body + "\n}", Types: map[string]string{"@s": c05Defs["@s"], "@o": c05Defs["@o"], "@i": `1 // {min: 0}`, "@arr": "[\n\t1\n]"}}, "key-shortcuts")
+			}
+		}
+	}
+	// (4b) `const: true` inside an `or` rule-set fixes the value to the element's example,
+	// whatever the item's own type is
+	for _, exv := range []string{`"x"`, `5`, `1.5`, `true`, `null`, `"a@b.cc"`, `"5"`} {
+		for _, it := range []string{"string", "integer", "float", "boolean", "null", "email", "decimal", "any"} {
+			for _, other := range []string{"string", "integer", "float", "boolean", "null"} {
+				for _, first := range []string{`{type: "` + it + `", const: true}`, `{const: true, type: "` + it + `"}`, `{type: "` + it + `", const: false}`} {
+					for _, orv := range []string{`[` + first + `, {type: "` + other + `"}]`, `[{type: "` + other + `"}, ` + first + `]`, `[` + first + `, "` + other + `"]`} {
+						for _, wrap := range []string{"%s", "{\n\t\"k\": %s\n}", "[\n\t%s\n]"} {
+							if mine() {
+								c08Case(w, &project{Root: fmt.Sprintf(wrap, exv+" // {or: "+orv+"}")}, "or-const-items")
+							}
+						}
+					}
+				}
 			}
 		}
 	}
@@ -463,7 +551,7 @@ func init() {
 	Register(&Prop{
 		ID:        "C08",
 		Technique: "bounded exhaustive enumeration of accepted schema projects (the families of C01, C03, C04, C05, C07 plus key-shortcut/additionalProperties combinations); each example is validated against the generated OpenAPI schema by an independent Schema-Object validator with user types resolved through a components map",
-		Rule:      "every accepted project with a root value from: annotated-model family, typed values x 8 positions (value variations), plain JSON values incl. escapes, reference sites with all types registered, key shortcuts x additionalProperties, allOf graphs; clauses: Example() succeeds and is RFC 8259; conversion succeeds and is JSON; root and every component are well-formed Schema Objects (keyword set, value types, resolvable $ref); the example is a valid instance; non-trivial = accepted projects with a root value",
+		Rule:      "every accepted project with a root value from: annotated-model family, typed values x 8 positions (value variations), plain JSON values incl. escapes, reference sites with all types registered, key shortcuts x additionalProperties, allOf graphs; clauses: Example() succeeds and is RFC 8259; conversion succeeds and is JSON; root and every component are well-formed Schema Objects (keyword set, value types, resolvable $ref); the example is a valid instance, and so is every other accepted value of the same rule set in the same position (one-scalar variations); non-trivial = accepted projects with a root value",
 		Bounds: func(tier string) map[string]any {
 			return map[string]any{"annotated_family_level": map[string]int{"quick": 2, "thorough": 3}[tier]}
 		},
